@@ -551,6 +551,31 @@ async function op_query_unbounded(req) {
     return {out: out.map((r) => Array.isArray(r) ? r.map(jsonable) : jsonable(r)), error: error, reads: reads, max_index: max_index};
 }
 
+async function op_query_csv_text(req) {
+    // CSV bytes -> CSVRecordIterator (bulk from a file, or a stream with prescribed chunks) -> rbql.query -> CSVWriter: the warnings the caller receives
+    let bytes = Buffer.from(req.bytes_hex, 'hex');
+    let stream = null, csv_path = null;
+    if (req.chunks === null || req.chunks === undefined) {
+        csv_path = tmp_file(bytes);
+    } else {
+        let bufs = [], pos = 0;
+        for (let n of req.chunks) { bufs.push(bytes.subarray(pos, pos + n)); pos += n; }
+        stream = new PrescribedReadable(bufs, !!req.async_delivery);
+    }
+    let sink = new CollectWritable();
+    let warnings = [], error = null;
+    try {
+        let it = new rbql_csv.CSVRecordIterator(stream, csv_path, req.encoding, req.delim, req.policy, !!req.has_header, req.comment_prefix || null);
+        let w = new rbql_csv.CSVWriter(sink, true, req.encoding, req.out_delim, req.out_policy);
+        await rbql.query(req.query, it, w, warnings);
+        await turns(2);
+    } catch (e) {
+        error = err_info(e);
+    }
+    if (csv_path) { try { fs.unlinkSync(csv_path); } catch (e) {} }
+    return {bytes_hex: Buffer.concat(sink.parts).toString('hex'), warnings: warnings, error: error};
+}
+
 async function handle(req) {
     switch (req.op) {
         case 'hello': scratch_dir = req.scratch; return {ok: true, node: process.version, js_dir: JS_DIR, rbql_version: rbql.version};
@@ -569,6 +594,7 @@ async function handle(req) {
         case 'roundtrip_batch': { let rs = []; for (let c of req.cases) rs.push(await op_roundtrip(c)); return {results: rs}; }
         case 'stream_vs_bulk': return await op_stream_vs_bulk(req);
         case 'query_unbounded': return await op_query_unbounded(req);
+        case 'query_csv_text_batch': { let rs = []; for (let c of req.cases) rs.push(await op_query_csv_text(c)); return {results: rs}; }
         case 'like_cross': return await op_like_cross(req);
         case 'like_literal_batch': return await op_like_literal_batch(req);
         default: return {error: {cls: 'DriverError', msg: 'unknown op ' + req.op}};
